@@ -29,3 +29,4 @@ func vPermuteMaps(on bool) {}
 func vStubTimeFormat(on bool) {}
 func vFileData(id int) string { return "" }
 func vFileWrites(id int) int  { return 0 }
+func vMonitorWrites(on bool) {}
